@@ -38,6 +38,8 @@ type fArg struct {
 	Form     argForm `json:"form"`
 	Announce int     `json:"announce"` // announced size (may differ from len(Val) for refused literals)
 	Omit     bool    `json:"omit"`     // honest client: payload not sent because no "+" arrived
+	// AnnounceText replaces the announced size by this text (sizes that overflow int64)
+	AnnounceText string `json:"announce_text,omitempty"`
 }
 
 type fCmd struct {
@@ -76,6 +78,9 @@ func (a fArg) render() string {
 		}
 		return fmt.Sprintf("{%d}\r\n%s", a.Announce, a.Val)
 	default:
+		if a.AnnounceText != "" {
+			return fmt.Sprintf("{%s+}\r\n%s", a.AnnounceText, a.Val)
+		}
 		return fmt.Sprintf("{%d+}\r\n%s", a.Announce, a.Val)
 	}
 }
@@ -695,6 +700,33 @@ func runFraming(h *H, cuts bool) {
 						one([]byte(sb.String()), cmds4, litPlus, true, -1, false, "corpus-error-before-literal")
 					}
 				}
+			}
+			// a non-synchronising literal whose announced size is not a readable number (it
+			// overflows int64): its octets cannot be skipped, so they must not be executed
+			for _, big := range []string{"9223372036854775808", "99999999999999999999", "18446744073709551616"} {
+				pl := "X8 LOGIN user pass\r\nX9 CREATE fromoverflow\r\n"
+				for _, cmdsO := range [][]fCmd{
+					{{Tag: newTag(), Name: "LOGIN", Args: []fArg{{Val: pl, Form: formNonSync, AnnounceText: big}}}, {Tag: newTag(), Name: "NOOP"}},
+					{{Tag: newTag(), Name: "LOGIN", Args: []fArg{{Val: "u", Form: formAtom}, {Val: "p", Form: formAtom}}},
+						{Tag: newTag(), Name: "CREATE", Args: []fArg{{Val: pl, Form: formNonSync, AnnounceText: big}}}, {Tag: newTag(), Name: "NOOP"}},
+					{{Tag: newTag(), Name: "LOGIN", Args: []fArg{{Val: "u", Form: formAtom}, {Val: "p", Form: formAtom}}},
+						{Tag: newTag(), Name: "APPEND", Args: []fArg{{Val: "box", Form: formAtom}, {Val: pl, Form: formNonSync, AnnounceText: big}}}, {Tag: newTag(), Name: "NOOP"}},
+				} {
+					var sb strings.Builder
+					for _, c := range cmdsO {
+						sb.WriteString(c.render())
+					}
+					one([]byte(sb.String()), cmdsO, litPlus, false, -1, false, "corpus-overflowing-literal-size")
+				}
+			}
+			// a tag containing "+": its tagged response would read as a continuation request
+			for _, tg := range []string{"+", "A+", "+1"} {
+				cmdsT := []fCmd{{Tag: tg, Name: "LOGIN", Args: []fArg{{Val: "u", Form: formAtom}, {Val: "p", Form: formAtom}}}, {Tag: newTag(), Name: "NOOP"}}
+				var sb strings.Builder
+				for _, c := range cmdsT {
+					sb.WriteString(c.render())
+				}
+				one([]byte(sb.String()), cmdsT, litPlus, false, -1, false, "corpus-plus-in-tag")
 			}
 			// APPEND above the limit: announced only
 			for _, form := range []argForm{formSync, formNonSync} {
